@@ -74,13 +74,16 @@ func (m SchemaModel) render() map[string]string {
 	return out
 }
 
-func (m SchemaModel) yml(layout string) string {
+func (m SchemaModel) yml(layout string, opts ...string) string {
 	var sb strings.Builder
 	sb.WriteString("schema:\n  - \"*.graphqls\"\nskip_mod_tidy: true\nskip_validation: true\nexec:\n  filename: generated.go\n  package: gen\nmodel:\n  filename: models_gen.go\n  package: gen\n")
 	if layout == "single-file" {
 		sb.WriteString("resolver:\n  filename: resolver.go\n  package: gen\n  type: Resolver\n")
 	} else {
 		sb.WriteString("resolver:\n  layout: follow-schema\n  dir: .\n  package: gen\n  type: Resolver\n")
+	}
+	for _, o := range opts {
+		sb.WriteString("  " + o + ": true\n")
 	}
 	sb.WriteString("models:\n")
 	for _, t := range m.Types[1:] {
@@ -138,6 +141,8 @@ type Step struct {
 
 type Case struct {
 	Layout string      `json:"layout"` // single-file follow-schema
+	// ResolverOpts: boolean options of the resolver section that are switched on (omit_template_comment)
+	ResolverOpts []string `json:"resolver_opts,omitempty"`
 	Schema SchemaModel `json:"schema"`
 	Steps  []Step      `json:"steps"`
 }
@@ -427,7 +432,7 @@ func check(c Case) *vfrun.Failure {
 		for n, s := range m.render() {
 			_ = os.WriteFile(filepath.Join(dir, n), []byte(s), 0o644)
 		}
-		_ = os.WriteFile(filepath.Join(dir, "gqlgen.yml"), []byte(m.yml(c.Layout)), 0o644)
+		_ = os.WriteFile(filepath.Join(dir, "gqlgen.yml"), []byte(m.yml(c.Layout, c.ResolverOpts...)), 0o644)
 	}
 	schema := c.Schema
 	writeSchema(schema)
@@ -789,6 +794,9 @@ func evolve(t *rapid.T, m SchemaModel, preferred []string) (SchemaModel, string)
 
 func gen(t *rapid.T) Case {
 	c := Case{Layout: rapid.SampledFrom([]string{"follow-schema", "follow-schema", "single-file"}).Draw(t, "layout")}
+	if rapid.IntRange(0, 2).Draw(t, "omit_template_comment") == 0 {
+		c.ResolverOpts = append(c.ResolverOpts, "omit_template_comment")
+	}
 	c.Schema = SchemaModel{Types: []Type{
 		{Name: "Query", Fields: []Field{{Name: "alpha", Type: "String"}, {Name: "thing", Type: "Thing", Args: "(id: ID!)"}, {Name: "beta", Type: "[Thing!]!", File: 1}}},
 		{Name: "Thing", Fields: []Field{{Name: "alpha", Type: "String"}, {Name: "gamma", Type: "String"}, {Name: "delta", Type: "Int!", File: 1}, {Name: "beta", Type: "Int"}}},
